@@ -19,6 +19,7 @@ import json
 from concurrent.futures import ThreadPoolExecutor
 
 import core
+import t1
 from core import cz, cbool, clist, ctuple
 
 STEPS7 = ["C", "D", "E", "F", "G", "A", "B"]
@@ -198,6 +199,7 @@ def gen(T=None):
     L.append("Definition tab_intervals : list (Z*Z*Z*option Z*option Z) := [\n%s].\n" % ";\n".join(
         "(%s,%s,%s,%s,%s)" % (zt(n), zt(qi), zt(s), core.copt(su, zt), core.copt(sd, zt)) for n, qi, s, su, sd in T["ivs"]))
     core.write_gen("C16_Tab", "".join(L))
+    t1.gen()   # T1: Gen/T1_music.v, Gen/T1_score.v -- definitions translated from the current source text
     return T
 
 
@@ -689,11 +691,14 @@ def run(ctx):
     ctx.log('tables written, %d rows, %d oracle failures' % (nrows, len(bad)))
     pre = prebuild_gen(ctx)
     ctx.log('table shards built')
+    # T1 tie (harness/t1.py): see c12.py
+    t1_ok = t1.tie(ctx, "C16")
+    ctx.log('T1 tie: %s' % t1_ok)
     ok, why = ctx.coq_props(expect_min=12)
     ctx.log('Props/C16.v checked: %s %s' % (ok, why[:300]))
     for what, rep in bad[:8]:
         ctx.violation(what, rep)
-    if not ok and not bad:
+    if not ok and not bad and t1_ok:
         ctx.violation("proof obligations of Props/C16.v no longer check: " + why[:1500], {"theorem_or_build": why, "prebuild": pre}, no_input=True)
     ctx.extra["exhaustive"] = True
     ctx.extra["exhaustive_note"] = "the arithmetic domain named by the property is enumerated completely; scores/parts are sampled"
@@ -707,6 +712,8 @@ def replay(obj):
     r = obj.get("replay", obj)
     print(json.dumps(obj, indent=1, default=str)[:4000])
     k = r.get("kind")
+    if k == "t1":
+        return t1.replay(r)
     if k == "note":
         note = S.Note(r["step"], r["octave"], r["alter"])
         M._transpose_note_inplace(note, S.Interval(r["number"], r["quality"], r["direction"]))
